@@ -186,7 +186,7 @@ def mutants(text, rng, k):
                                                   "\\\u200e", "\\\u0085", "\\ ", "\\\\", "\\\t"]
     n = len(text)
     for _ in range(k):
-        op = rng.randrange(9)
+        op = rng.randrange(11)
         t = text
         if n == 0:
             out.append(rng.choice(specials))
@@ -214,14 +214,24 @@ def mutants(text, rng, k):
             j = rng.randrange(n)
             a, b2 = min(i, j), max(i, j)
             t = text[:a] + text[b2:]                            # cut a stretch out
-        else:
+        elif op == 8:
             t = text[:i] + rng.choice(specials) + text[i + 1:]  # replace a character
+        elif op == 9:
+            ls = text.split("\n")                               # duplicate a line (duplicate declarations / rules)
+            j = rng.randrange(len(ls))
+            t = "\n".join(ls[:j + 1] + [ls[j]] + ls[j + 1:])
+        else:
+            ls = text.split("\n")                               # swap two lines
+            if len(ls) > 1:
+                a, b2 = rng.randrange(len(ls)), rng.randrange(len(ls))
+                ls[a], ls[b2] = ls[b2], ls[a]
+            t = "\n".join(ls)
         out.append(t)
     return out
 
 
 def c12(pid, tier, replay):
-    from . import genlex, p_hdr, p_lexparse
+    from . import genlex, p_hdr, p_lexparse, p_yparse
     res = core.Result(pid, "model_checking", tier)
     seed = core.seed()
     rng = random.Random(seed * 19 + 12)
@@ -243,8 +253,10 @@ def c12(pid, tier, replay):
             kind = {"original": "yacc_original", "original_noaction": "yacc_original_noaction", "grmtools": "yacc_grmtools", "eco": "yacc_eco"}[d["kind"]]
             if rng.random() < 0.3:
                 y = rng.choice(HEADERS) + "\n" + y
+            ykind = "yast_" + ("original" if kind.startswith("yacc_original") else kind[5:])
             for m in [y] + mutants(y, rng, k):
                 add(kind, m)
+                add(ykind, m)               # the parser on its own: AST + errors, predicted exactly
                 if rng.random() < 0.25:
                     add(rng.choice(["yacc_original", "yacc_grmtools", "yacc_eco"]), m)
             ld = genlex.gen_lsrc(rng)
@@ -330,9 +342,26 @@ def c12(pid, tier, replay):
                         raise core.ToolError("binding self-test (lex parser) failed")
                     break
         run_parts(res, "TraceLexParse", ll, {}, 1 if replay else (12 if thorough else 4), byid, seed)
+    # the .y parser + AST validation against their transcription: exact prediction
+    yl = p_yparse.events(items, lines)
+    res.notes["yacc_outcomes_predicted"] = len(yl)
+    if yl:
+        if not replay:
+            for x in yl:
+                e = json.loads(x)
+                if e["res"].get("ast", {}).get("prods"):
+                    e["res"]["ast"]["prods"][0]["span"][1] += 1
+                    v = validate(res, "TraceYaccParse", 9004, [json.dumps(e) + "\n"], {})
+                    st = dict(rejected=len(v["devs"]) > 0, corruption="span end of the first production + 1")
+                    res.notes["binding_selftest_yaccparse"] = st
+                    if not st["rejected"]:
+                        raise core.ToolError("binding self-test (yacc parser) failed")
+                    break
+        run_parts(res, "TraceYaccParse", yl, {}, 1 if replay else (14 if thorough else 6), byid, seed)
     if not replay:
         p_hdr.mc(res, tier)
         p_lexparse.mc(res, tier)
+        p_yparse.mc(res, tier)
     for i in items[1:4]:
         res.sample(i)
     res.assumptions += ["a parser that does not answer within 4 s is reported as not returning",
